@@ -785,6 +785,67 @@ func HashMapOfValueDelete
   ensures count: ret1.flag == value.UNDEFINED_FLAG ==> hashMap.Elements == old(hashMap.Elements) - ite(ret0, 1, 0)
   ensures kept: forall p int :: 0 <= p && p < len(hashMap.Table) && old(mLive(hashMap.Table, p)) && !old(eqv(vm, mKey(hashMap.Table, p), key)) ==> mKey(hashMap.Table, p) == old(mKey(hashMap.Table, p)) && mVal(hashMap.Table, p) == old(mVal(hashMap.Table, p))
 
+// ---- insertion (C17) ------------------------------------------------------------------
+// keys equal under == occupy one entry; binds(t, k, v): some live slot holds exactly (k, v)
+axiom eqSym: forall vm *Thread, a value.Value, b value.Value :: eqv(vm, a, b) ==> eqv(vm, b, a)
+spec fn nodupM(vm *Thread, t []value.PairOfValue) bool = forall i int, j int :: 0 <= i && i < len(t) && 0 <= j && j < len(t) && i != j && mLive(t, i) && mLive(t, j) ==> !eqv(vm, mKey(t, i), mKey(t, j))
+// hasKey: mHas as a declared function (definitional axiom with a trigger), so that statements
+// quantified over keys instantiate by matching
+spec rec fn hasKey(vm *Thread, t []value.PairOfValue, k value.Value) bool = exists j int :: 0 <= j && j < len(t) && mLive(t, j) && eqv(vm, mKey(t, j), k)
+spec fn binds(t []value.PairOfValue, k value.Value, v value.Value) bool = exists j int :: 0 <= j && j < len(t) && mLive(t, j) && mKey(t, j) == k && mVal(t, j) == v
+
+// a table with an empty slot is not fully occupied, and vice versa
+lemma mCountFull(t []value.PairOfValue, k int, j int)
+  props C17
+  requires 0 <= j && j < k && k <= len(t) && mEmpty(t, j)
+  ensures mOccCount(t, k) < k
+  uses mCountRange
+  induction k from 0
+
+// Resizing rehashes every live entry into a fresh table of the requested capacity: the same
+// bindings, no tombstones.  ASSUMED here (trusted), so that insertion can be proved against
+// it; listed in the evidence as an assumption until the rehash loop itself is proved.
+func HashMapOfValueSetCapacity
+  trusted
+  requires wfMap(vm, hashMap) && nodupM(vm, hashMap.Table) && capacity >= 1 && capacity > hashMap.Elements
+  assigns hashMap.Table, hashMap.Elements, hashMap.OccupiedSlots, hashMap.version, fresh
+  ensures inv: wfMap(vm, hashMap) && nodupM(vm, hashMap.Table) && hashMap.Elements == old(hashMap.Elements)
+  ensures sameKeys: forall k value.Value :: hasKey(vm, hashMap.Table, k) <==> old(hasKey(vm, hashMap.Table, k))
+  ensures ok: ret.flag == value.UNDEFINED_FLAG ==> len(hashMap.Table) == capacity && (capacity != old(len(hashMap.Table)) ==> hashMap.OccupiedSlots == hashMap.Elements)
+  ensures err: ret.flag != value.UNDEFINED_FLAG ==> hashMap.Table == old(hashMap.Table) && hashMap.OccupiedSlots == old(hashMap.OccupiedSlots)
+
+// map[key] = val: afterwards the map binds key to val; a binding of any other key is there
+// exactly when it was there before; nothing else equal to key remains; the number of entries
+// grows by one exactly when no equal key was present; the table stays a well-formed
+// open-addressing table without duplicate keys.  (Absence of the "no room" panic rests on
+// floating-point load-factor arithmetic and is not part of this contract: nosafety.)
+func HashMapOfValueSetWithMaxLoad
+  props C17
+  nosafety
+  uses mCountRange, mCountUpdate, mCountFull
+  requires wfMap(vm, hashMap) && nodupM(vm, hashMap.Table) && !hsEmpty(key)
+  requires 0 < maxLoad && maxLoad <= 1
+  // whatever the resizing did, the lookup starts from a well-formed table with the same bindings
+  cut before HashMapOfValueIndex#1: wfMap(vm, hashMap) && nodupM(vm, hashMap.Table) && hashMap.Elements == old(hashMap.Elements) && !hsEmpty(key)
+  cut before HashMapOfValueIndex#1: hasKey(vm, hashMap.Table, key) <==> old(hasKey(vm, hashMap.Table, key))
+  ensures try wfP: ret.flag == value.UNDEFINED_FLAG ==> wfProbeM(vm, hashMap.Table)
+  ensures hdr: ret.flag == value.UNDEFINED_FLAG ==> len(hashMap.Table) == cap(hashMap.Table)
+  ensures wfL: ret.flag == value.UNDEFINED_FLAG ==> hashMap.Elements == mLiveCount(hashMap.Table, len(hashMap.Table))
+  ensures wfO: ret.flag == value.UNDEFINED_FLAG ==> hashMap.OccupiedSlots == mOccCount(hashMap.Table, len(hashMap.Table))
+  ensures try nodup: ret.flag == value.UNDEFINED_FLAG ==> nodupM(vm, hashMap.Table)
+  ensures bound: ret.flag == value.UNDEFINED_FLAG ==> binds(hashMap.Table, key, val)
+  ensures try single: ret.flag == value.UNDEFINED_FLAG ==> forall k value.Value, v value.Value :: eqv(vm, k, key) && binds(hashMap.Table, k, v) ==> k == key && v == val
+  ensures try othersKept: ret.flag == value.UNDEFINED_FLAG ==> forall k value.Value, v value.Value :: !eqv(vm, k, key) && old(binds(hashMap.Table, k, v)) ==> binds(hashMap.Table, k, v)
+  ensures try othersNew: ret.flag == value.UNDEFINED_FLAG ==> forall k value.Value, v value.Value :: !eqv(vm, k, key) && binds(hashMap.Table, k, v) ==> old(binds(hashMap.Table, k, v))
+  ensures count: ret.flag == value.UNDEFINED_FLAG ==> hashMap.Elements == old(hashMap.Elements) + ite(old(hasKey(vm, hashMap.Table, key)), 0, 1)
+
+func HashMapOfValueSet
+  props C17
+  nosafety
+  requires wfMap(vm, hashMap) && nodupM(vm, hashMap.Table) && !hsEmpty(key)
+  ensures bound: ret.flag == value.UNDEFINED_FLAG ==> binds(hashMap.Table, key, val)
+  ensures count: ret.flag == value.UNDEFINED_FLAG ==> hashMap.Elements == old(hashMap.Elements) + ite(old(hasKey(vm, hashMap.Table, key)), 0, 1) && hashMap.Elements == mLiveCount(hashMap.Table, len(hashMap.Table)) && hashMap.OccupiedSlots == mOccCount(hashMap.Table, len(hashMap.Table))
+
 // (not yet proved: contracts kept for the next step, attached to no property)
 // resizing keeps the set: same members, well-formed, the requested capacity
 func HashSetOfValueSetCapacity
